@@ -20,6 +20,10 @@
                aggregate zero lines of empty kinds) and completeness (that every entity shows up)
                are not constrained by the statement; missing entities are DRIFT.
 
+   The reader multiset of a path is a dimension of the bounded model (family "readers": three paths per scrape,
+   each with one of the 35 multisets of <= 4 readers over three reader types, listed unsorted); every
+   paths_readers sample is judged by value against the path's readers.
+
    Layer 1 (the code): label values are written with \ " LF escaped (labelValueEscaper), so no answer
    is predicted broken. The behaviour before the fix (commit "escape label values in the metrics
    exposition") is kept as the named deviation "RawLabelValues": values written between the quotes as
@@ -33,6 +37,7 @@ CONSTANTS Classes,      \* label-string classes of the bounded model
           Counts,       \* entities per populated kind (subset of {1, 2})
           Filters,      \* subset of {"none", "type", "path"}
           L1Variant,    \* "fixed" (the current code) or the name of a deviation: "RawLabelValues"
+          ReaderSteps,  \* family "readers": path 2 / path 3 have reader multiset number i+k / i+2k+3 for k in ReaderSteps
           TwoFocuses    \* the focuses that are also populated with two entities per kind (then without filter
                         \* unless TwoFocuses = Focuses)
 
@@ -98,23 +103,44 @@ Attrs(kind, g, idx, s) ==
                                      A("state", IF idx = 1 THEN CpForwarding ELSE CpError)>>
       [] OTHER -> <<A("id", Uuid(g)), A("path", s), A("remoteAddr", Remote(idx)), A("state", SessState(idx))>>
 
-\* readers of the idx-th path: none for a path of class "plain"; otherwise the first path has three readers
-\* of two types and the second two readers of two types (one type in common)
+\* readers of the idx-th path outside the family "readers": none for a path of class "plain"; otherwise the
+\* first path has three readers of two types and the second two readers of two types (one type in common)
 Readers(idx, c) == IF c = "plain" THEN <<>>
                    ELSE IF idx = 1 THEN <<CpRtspSession, CpRtmpConn, CpRtspSession>>
                    ELSE <<CpWebRTCSession, CpRtspSession>>
 
-Populated(focus) == IF focus = "all" THEN Range(Kinds)
-                    ELSE IF focus = "forward_dests" THEN {"paths", "forward_dests"} ELSE {focus}
+\* family "readers": the reader MULTISET of a path is a dimension. A multiset over three reader types (in sorted
+\* order rtmpConn < rtspSession < webRTCSession) is a vector <<na, nb, nc>> with na + nb + nc <= 4: all 35 of them
+\* (none; all the same; 2+1 and 1+2 in every sorted position; 1+1+1; 2+2; 3+1; 2+1+1 ...). The readers are listed
+\* round-robin from the last type, so the list is not sorted and equal types are not adjacent.
+ReaderTypes == <<CpRtmpConn, CpRtspSession, CpWebRTCSession>>
+ShapeList == SelectSeq([i \in 1..125 |-> <<(i - 1) \div 25, ((i - 1) \div 5) % 5, (i - 1) % 5>>],
+                       LAMBDA v : v[1] + v[2] + v[3] <= 4)
+NShapes == Len(ShapeList)
+ShapeAt(k) == ShapeList[((k - 1) % NShapes) + 1]
+RECURSIVE RoundRobin(_, _)
+RoundRobin(v, t) ==
+    IF v[1] + v[2] + v[3] = 0 THEN <<>>
+    ELSE LET nt == IF t = 1 THEN 3 ELSE t - 1 IN
+         IF v[t] > 0 THEN <<ReaderTypes[t]>> \o RoundRobin([v EXCEPT ![t] = v[t] - 1], nt) ELSE RoundRobin(v, nt)
+ReadersOfShape(v) == RoundRobin(v, 3)
+\* the three paths of scenario (i, k) of the family
+ShapesOf(i, k) == <<ShapeAt(i), ShapeAt(i + k), ShapeAt(i + 2 * k + 3)>>
 
-Entity(kind, idx, c) ==
+Populated(focus) == IF focus = "all" THEN Range(Kinds)
+                    ELSE IF focus = "forward_dests" THEN {"paths", "forward_dests"}
+                    ELSE IF focus = "readers" THEN {"paths"} ELSE {focus}
+
+\* shapes = <<>> (readers by class) or one reader multiset per path
+Entity(kind, idx, c, shapes) ==
     LET g == 2 * (KindNo(kind) - 1) + idx  s == Str(idx, c) IN
     [kind |-> kind, idx |-> idx, g |-> g, attrs |-> Attrs(kind, g, idx, s),
-     ready |-> (idx = 1), readers |-> IF kind = "paths" THEN Readers(idx, c) ELSE <<>>]
+     ready |-> (idx = 1),
+     readers |-> IF kind # "paths" THEN <<>> ELSE IF shapes = <<>> THEN Readers(idx, c) ELSE ReadersOfShape(shapes[idx])]
 
-Entities(focus, cs, n) ==
+Entities(focus, cs, n, shapes) ==
     LET ks == SelectSeq(Kinds, LAMBDA k : k \in Populated(focus)) IN
-    Flatten([i \in 1..Len(ks) |-> [idx \in 1..n |-> Entity(ks[i], idx, cs[idx])]])
+    Flatten([i \in 1..Len(ks) |-> [idx \in 1..n |-> Entity(ks[i], idx, cs[idx], shapes)]])
 
 \* ------------------------------------------------------------------ layer 2: the record formula
 \* e: [kind, attrs, readers, counters (seq of [k, v4])];  s: [kind, key, labels (seq of [k, v]), val4, valOK]
@@ -149,6 +175,13 @@ Failing(r) ==
 \* DRIFT only: an entity without its presence sample in an unfiltered answer
 Missing(r) == {i \in 1..Len(r.ents) :
                  ~\E j \in 1..Len(r.samples) : r.samples[j].key = "" /\ Corresponds(r.samples[j], r.ents[i])}
+\* DRIFT only: a reader type of a path without its paths_readers sample in an unfiltered answer
+MissingReaders(r) == {i \in 1..Len(r.ents) :
+                        \E m \in 1..Len(r.ents[i].readers) :
+                            ~\E j \in 1..Len(r.samples) :
+                                /\ IsReaders(r.samples[j]) /\ HasLabel(r.samples[j], "readerType")
+                                /\ LabelOf(r.samples[j], "readerType") = r.ents[i].readers[m]
+                                /\ Corresponds(r.samples[j], r.ents[i])}
 Deviations == {"RawLabelValues"}
 RawBroken(ents) == \E i \in 1..Len(ents) : \E m \in 1..Len(ents[i].attrs) : NeedsEscape(ents[i].attrs[m].v)
 L1Broken(ents) == IF L1Variant = "fixed" THEN FALSE ELSE RawBroken(ents)       \* L1Variant = "RawLabelValues"
@@ -187,21 +220,30 @@ SyntaxTests ==
       [text |-> Cp("m_x 7"), conformant |-> FALSE] }
 
 \* ------------------------------------------------------------------ bounded model
-VARIABLES focus, c1, c2, n, filter, done
-vars == <<focus, c1, c2, n, filter, done>>
-Init == /\ focus \in Focuses /\ c1 \in Classes /\ c2 \in Classes /\ n \in Counts /\ filter \in Filters
-        /\ (n = 1 => c2 = c1)                                    \* c2 unused
-        /\ (n = 2 => ~(c1 = "empty" /\ c2 = "empty"))            \* two entities need different names
-        /\ (filter = "path" => focus \in {"paths", "forward_dests", "all"})
-        /\ (n = 2 => focus \in TwoFocuses /\ (TwoFocuses # Focuses => filter = "none"))
+VARIABLES focus, c1, c2, n, filter, ri, rk, done
+vars == <<focus, c1, c2, n, filter, ri, rk, done>>
+IsReadersFam == focus = "readers"
+Init == /\ focus \in Focuses /\ c1 \in Classes /\ c2 \in Classes /\ n \in Counts \cup {3} /\ filter \in Filters
+        /\ ri \in 0..NShapes /\ rk \in ReaderSteps \cup {0}
+        /\ IF focus = "readers"
+           THEN n = 3 /\ c1 = "punct" /\ c2 = "nonascii" /\ filter = "none" /\ ri >= 1 /\ rk \in ReaderSteps
+           ELSE /\ n \in Counts /\ ri = 0 /\ rk = 0
+                /\ (n = 1 => c2 = c1)                                    \* c2 unused
+                /\ (n = 2 => ~(c1 = "empty" /\ c2 = "empty"))            \* two entities need different names
+                /\ (filter = "path" => focus \in {"paths", "forward_dests", "all"})
+                /\ (n = 2 => focus \in TwoFocuses /\ (TwoFocuses # Focuses => filter = "none"))
         /\ done = FALSE
-Next == ~done /\ done' = TRUE /\ UNCHANGED <<focus, c1, c2, n, filter>>
+Next == ~done /\ done' = TRUE /\ UNCHANGED <<focus, c1, c2, n, filter, ri, rk>>
 Spec == Init /\ [][Next]_vars
 
+CurShapes == IF focus = "readers" THEN ShapesOf(ri, rk) ELSE <<>>
+CurEntities == Entities(focus, <<c1, c2, "plain">>, n, CurShapes)
+
 Scenario ==
-    LET ents == Entities(focus, <<c1, c2>>, n) IN
+    LET ents == CurEntities IN
     [focus |-> focus, c1 |-> c1, c2 |-> c2, n |-> n, filter |-> filter, ents |-> ents,
-     typeArg |-> IF focus = "all" THEN "paths" ELSE focus,
+     shapes |-> CurShapes,
+     typeArg |-> IF focus \in {"all", "readers"} THEN "paths" ELSE focus,
      pathArg |-> Str(1, c1),
      l1broken |-> L1Broken(ents)]
 
@@ -209,10 +251,13 @@ Scenario ==
 \* injective on the classes, and layer 1 coincides with the conformant rendering exactly when nothing
 \* needs escaping
 ModelSane ==
-    done => LET ents == Entities(focus, <<c1, c2>>, n) IN
+    done => LET ents == CurEntities IN
             /\ \A i, j \in 1..Len(ents) : (i # j /\ ents[i].kind = ents[j].kind) => ents[i].attrs # ents[j].attrs
             /\ \A i \in 1..Len(ents) : \A m \in 1..Len(ents[i].attrs) :
                    LET v == ents[i].attrs[m].v IN (EscCp(v, TRUE) = EscCp(v, FALSE)) <=> ~NeedsEscape(v)
+            /\ NShapes = 35
+            /\ \A i \in 1..Len(ents) : \A t \in 1..3 :
+                   CurShapes # <<>> => NReaders(ents[i], ReaderTypes[t]) = CurShapes[ents[i].idx][t]
 
 EmitCases == done => Emit("CASE", Scenario)
 EmitParserTests == (done /\ focus = "paths" /\ c1 = "plain" /\ n = 1 /\ filter = "none") =>
